@@ -17,6 +17,19 @@ def is_noise(t):
     return False
 
 
+LOG_MACROS = {"debug", "trace", "info", "warn", "error", "event", "span", "debug_span", "trace_span",
+              "info_span", "warn_span", "error_span", "log", "enabled"}
+
+
+def is_logging(t):
+    """Calls generated inside a tracing/log macro invocation."""
+    if not t.get("exp"):
+        return False
+    m = t.get("macro") or ""
+    seg = m.rsplit("::", 1)[-1]
+    return seg in LOG_MACROS and (m.startswith("tracing::") or m.startswith("log::") or "::" not in m)
+
+
 def last_seg(path):
     if not path:
         return ""
@@ -63,7 +76,7 @@ def real_calls(body, live=None):
     for i, t in body.calls():
         if live is not None and i not in live:
             continue
-        if not is_noise(t):
+        if not is_noise(t) and not is_logging(t):
             yield i, t
 
 
@@ -94,12 +107,16 @@ def await_try(body, bi):
                     at.cont = es.targets.get("Continue")
                     at.brk = es.targets.get("Break")
                 return at
-            if not is_noise(t):
+            if not is_noise(t) and cname(t) not in RESULT_ADAPTORS:
                 continue  # another real call: stop this path
         for n in sc[b]:
             if n not in seen:
                 dq.append(n)
     return None
+
+
+# Calls that pass a Result through unchanged in its Ok/Err shape.
+RESULT_ADAPTORS = {"map_err"}
 
 
 def success_start(body, bi):
